@@ -124,7 +124,7 @@ End Exp.
 
 (* ---------- expr.rs ---------- *)
 Section Eval.
-  Variable EV : str -> option str.        (* evalexpr::eval(..).to_string(), None = error *)
+  Variable EV : str -> evr.        (* evalexpr::eval(..).to_string() *)
 
   (* contains("$(") *)
   Fixpoint contains_dollar_paren (s : str) : bool :=
@@ -187,7 +187,7 @@ Section Eval.
       match eval_loop (eval_rec fuel true) input None None 0 [] false with
       | Ok (result, changed) =>
           if is_eval then
-            match EV result with Some v => Ok v | None => Err (EExpr result) end
+            match EV result with EvOk v => Ok v | EvErr => Err (EExpr result) | EvNeed => Err (ENeedEv result) end
           else Ok (if changed then result else input)
       | Err e => Err e | Panic n => Panic n | Fuel => Fuel
       end
